@@ -852,6 +852,46 @@ func TestC03(t *testing.T) {
 		offer(c, def, in, fmt.Sprintf("after-large-message/claimed=%d/supplied=%d", cl, su))
 	})
 
+	// 3f. diam.MessageBufferLength is an exported variable: an application may change it while
+	//     it is running (more room once it has seen larger messages). Well-formed messages of
+	//     every size are decoded before and after, whatever buffers earlier traffic left behind.
+	g03 := genCtx(t)
+	rec.Suite("buffer-length-changed-at-run-time", 12, func(c *ev.Case) {
+		oldLen := diam.MessageBufferLength
+		defer func() { diam.MessageBufferLength = oldLen }()
+		lens := [][2]int{{1024, 8192}, {1024, 4096}, {512, 2048}, {2048, 1 << 16}, {4096, 1024}, {64, 1024}}[c.I%6]
+		c.Class("buffer-length %d->%d", lens[0], lens[1])
+		for round := 0; round < 200 && !c.Failed(); round++ {
+			diam.MessageBufferLength = lens[0]
+			bodies := []int{12, 100, 0, lens[0] - 24}
+			if round%2 == 1 {
+				diam.MessageBufferLength = lens[1]
+				lo, hi := lens[0], lens[1]
+				if lo > hi {
+					lo, hi = hi, lo
+				}
+				bodies = []int{(lo + 4 + c.R.IntN(hi-lo)) &^ 3, 12, (hi - 24) &^ 3, (lo + 8) &^ 3}
+			}
+			for k, body := range bodies {
+				if body != 0 && body < 12 {
+					body = 12
+				}
+				if body > 12 {
+					body &^= 3
+				}
+				id := uint32(round)<<8 | uint32(k)
+				in := seqMsg(id, body)
+				var m *diam.Message
+				var err error
+				if p, bad := guard(func() { m, err = diam.ReadMessage(bytes.NewReader(in), g03.Parser) }); bad || err != nil || m == nil || m.Header.HopByHopID != id || int(m.Header.MessageLength) != len(in) {
+					c.Fail(ev.Sig{"op": "panic", "call": "ReadMessage", "how": "buffer-length-changed"}, in, nil, "diam.MessageBufferLength set to %d after messages had been read with %d: ReadMessage of a well-formed %d-byte message: err=%v %s", diam.MessageBufferLength, lens[(round+1)%2], len(in), err, p)
+					return
+				}
+				c.Event("decodes", 1)
+			}
+		}
+	})
+
 	// 4. random byte strings with plausible headers
 	// a message decoded while its dictionary did not know some of its AVPs (they are carried as
 	// opaque data), then a dictionary is loaded that defines those codes - as groups, numbers,
